@@ -91,18 +91,26 @@ class Ctx:
         v = dict(property=self.pid, rule=rule, key=key, site=site, msg=msg, config=cfg)
         if detail is not None:
             v['detail'] = detail
+        known = None
+        for k in self.known:
+            if k.get('status', 'known') == 'known' and k['rule'] == rule and k['key'] == key:
+                kc = k.get('config')
+                if kc and cfg is not None and cfg not in [x.strip() for x in kc.split(',')]:
+                    continue        # the finding is listed for other configurations only
+                known = k
+                break
+        bucket = self.known_hits if known is not None else self.violations
         # de-duplicate the same instance seen in several configurations
-        for old in self.violations + self.known_hits:
+        for old in bucket:
             if old['rule'] == rule and old['key'] == key:
                 old.setdefault('configs', [old.get('config')])
                 if cfg not in old['configs']:
                     old['configs'].append(cfg)
                 return False
-        for k in self.known:
-            if k.get('status', 'known') == 'known' and k['rule'] == rule and k['key'] == key:
-                v['known'] = k
-                self.known_hits.append(v)
-                return False
+        if known is not None:
+            v['known'] = known
+            self.known_hits.append(v)
+            return False
         self.violations.append(v)
         return False
 
